@@ -3,5 +3,6 @@ SPECIFICATION SpecTab
 INVARIANT HistoryFree
 INVARIANT SameAsFresh
 PROPERTY WriteIsLocal
+PROPERTY ValueFollows
 CONSTRAINT Bounded
 CHECK_DEADLOCK FALSE
